@@ -33,6 +33,7 @@ type missingAnchor struct {
 }
 
 type Gen struct {
+	recordedLocals  map[string]map[string]string // function -> local name -> definition fingerprints recorded with the lock
 	smallHelperMemo map[*ssa.Function]bool
 	missing         []missingAnchor
 	prog            *ssa.Program
